@@ -301,7 +301,7 @@ class Interp:
             a, b, ca, cb = b, a, cb, ca
         if cb is not None:
             if cb < 0:
-                raise Unsupported('multiplication by a negative constant')
+                return self.i_sub(self.const(0), self.i_mul(a, self.const(-cb)))
             acc = self.const(0)
             k = 0
             while cb:
@@ -334,7 +334,14 @@ class Interp:
             k = cb.bit_length() - 1
             return self.trim(Int(self.ext(a, max(k, 1))[:k] if k else [0], False))
         if cb is None and not b.signed:
-            # b = 2**s one-hot?  Only support the low-bits mask when b is a power of two by construction.
+            # b = 2**s: the low-bits mask is exact when b is one-hot by construction (checked as a tautology)
+            B = self.B
+            none, one = 1, 0
+            for bit in b.bits:
+                one = B.OR(B.AND(one, B.NOT(bit)), B.AND(none, bit))
+                none = B.AND(none, B.NOT(bit))
+            if one == 1:
+                return self.i_bitop('and', a, self.i_sub(b, self.const(1)))
             raise Unsupported('modulo by a symbolic value')
         ca = self.cval(a)
         if ca is not None and cb:
@@ -650,6 +657,7 @@ class Interp:
             if isinstance(e.op, (ast.LShift, ast.RShift, ast.Pow)):
                 # amounts are judged under the path condition (e.g. `lsbit - 3` is non-negative where lsbit >= 8)
                 b = self.simplify_value(b, st.cond)
+            self.op_cond = st.cond
             return self.lift2(a, b, lambda x, y: self.binop(e.op, x, y), st.cond)
         if isinstance(e, ast.Compare):
             left = self._eval(e.left, st)
@@ -708,7 +716,15 @@ class Interp:
         if isinstance(op, ast.Sub):
             return self.i_sub(x, y)
         if isinstance(op, ast.Mult):
-            return self.i_mul(x, y)
+            hook = getattr(self.policy, 'symbolic_mul', None)
+            if hook is None:
+                return self.i_mul(x, y)
+            try:
+                return self.i_mul(x, y)
+            except Unsupported:
+                return hook(self, x, y)
+        if isinstance(op, ast.Div) and getattr(self.policy, 'trunc_div', None) is not None:
+            return UF('op:Div', [V(x), V(y)])
         if isinstance(op, ast.BitAnd):
             return self.i_bitop('and', x, y)
         if isinstance(op, ast.BitOr):
@@ -1128,8 +1144,13 @@ class Interp:
         if name in ('int', 'bool'):
             if not args:
                 return V(self.const(0))
-            return self.lift1(args[0], lambda p: Int([self.p_truth(p)]) if name == 'bool' or not isinstance(p, Int)
-                              else p, st.cond)
+            self.op_cond = st.cond
+
+            def conv(p):
+                if name == 'int' and isinstance(p, UF) and p.name == 'op:Div' and getattr(self.policy, 'trunc_div', None) is not None:
+                    return self.policy.trunc_div(self, p.args[0].single(), p.args[1].single())
+                return Int([self.p_truth(p)]) if name == 'bool' or not isinstance(p, Int) else p
+            return self.lift1(args[0], conv, st.cond)
         if name == 'len':
             return self.lift1(args[0], lambda p: self.const(len(p.items)) if isinstance(p, Tup)
                               else Top('len'), st.cond)
@@ -1178,7 +1199,14 @@ class Interp:
             if a0 == ('str', '1'):
                 return self.lift1(recv.args[0], lambda q: self.i_popcount(self.need_int(q)), st.cond)
         if attr == 'bit_length' and isinstance(recv, Int):
-            raise Unsupported('bit_length')
+            if recv.signed:
+                raise Unsupported('bit_length of a possibly negative value')
+            res = self.const(0)
+            for i, b in enumerate(recv.bits):
+                if b == 0:
+                    continue
+                res = self.const(i + 1) if b == 1 else self.i_ite(b, self.const(i + 1), res)
+            return V(res)
         raise Unsupported('method %s on a value' % attr)
 
     def call_func(self, fi, recv, args, kwargs, e, st):
